@@ -376,7 +376,8 @@ vcall(void *fn, int nargs, const uint64_t *args, obs *o)
                 for (size_t i = 0; i < n; i++)
                         w[i] = dead_word(dead_seed, i);
         }
-        statics_snapshot();
+        if (!vc_parallel)
+                statics_snapshot();
         uint32_t mx0;
         uint16_t cw0;
         __asm__ volatile("stmxcsr %0" : "=m"(mx0));
@@ -432,7 +433,7 @@ vcall(void *fn, int nargs, const uint64_t *args, obs *o)
                         o->inputs_ok = 0;
                 }
         }
-        o->static_changed = statics_diff(o->static_sym, sizeof o->static_sym);
+        o->static_changed = vc_parallel ? 0 : statics_diff(o->static_sym, sizeof o->static_sym);
         if (!o->fault) {
                 const uint64_t *got = &vc_regs.rbx;
                 for (int i = 0; i < 6; i++)
@@ -498,6 +499,8 @@ vc_stack_dirty_runs(char *out, size_t cap)
 
 /* ------------------------------------------------------------------ events */
 FILE *ev_fp;
+__thread FILE *ev_fp_thread; /* per-thread trace in parallel mode */
+int vc_parallel;
 long ev_count;
 #define EVB_SZ (1 << 20)
 static __thread char *evb;
@@ -590,10 +593,11 @@ void
 ev_end(void)
 {
         evp("}\n");
-        flockfile(ev_fp);
-        fwrite(evb, 1, evn, ev_fp);
+        FILE *f = ev_fp_thread ? ev_fp_thread : ev_fp;
+        flockfile(f);
+        fwrite(evb, 1, evn, f);
         ev_count++;
-        funlockfile(ev_fp);
+        funlockfile(f);
 }
 
 /* ------------------------------------------------------------------ commands */
